@@ -2,6 +2,8 @@ import Drivers.Proto
 import St4sd.Model.Ini
 import St4sd.Model.IniNames
 import St4sd.Model.IniFloat
+import St4sd.Model.IniProc
+import St4sd.Model.IniDir
 import St4sd.Gen.C19
 /-! Model driver for property C19 (legacy-format translation of one component). -/
 open Lean Proto St4sd.Ini
@@ -141,6 +143,27 @@ def handle (j : Json) : Except String Json := do
   | "status_text" =>
     let secs ← (← getArr j "sections").mapM sectionOfJson
     return jobj [("back", jopt (fun r => jarr (r.map jsonOfStage)) (St4sd.IniFloat.parseStatus secs))]
+  | "parse_seq" =>
+    -- the sections of one process, in the order they are read: each parsed by the reader in the state the earlier
+    -- ones left; the answer of known_flowir_options() afterwards
+    let secs ← (← getArr j "sections").mapM fun sj => do (← sj.getArr?).toList.mapM iniOfJson
+    let r := St4sd.IniProc.parseSeq false parseTable backendTable ⟨knownKeys⟩ secs
+    return jobj [("parsed", jarr (r.2.map fun o => jopt (fun l => jarr (l.map jsonOfPair)) o)),
+                 ("known", jarr (r.1.known.map jchars))]
+  | "dir_history" =>
+    -- a history of dumps into one directory: [{"instance": bool, "stages": [stage indices of the description]}];
+    -- the stage files of both flavours after every dump and what a load of each flavour discovers at the end
+    let hist ← (← getArr j "history").mapM fun h => do
+      let st ← getNatList h "stages"
+      return ((← getBool h "instance"), st.map fun i => (i, i))
+    let mut d : St4sd.IniDir.Dir Nat := ⟨[], []⟩
+    let mut out : Array Json := #[]
+    for h in hist do
+      d := St4sd.IniDir.dump d h.1 h.2
+      out := out.push (jobj [("inst", jarr (d.inst.map fun e => jnat e.1)), ("pkg", jarr (d.pkg.map fun e => jnat e.1))])
+    return jobj [("after", Json.arr out),
+                 ("discover_inst", jopt (fun l => jarr (l.map jnat)) (St4sd.IniDir.discover d.inst)),
+                 ("discover_pkg", jopt (fun l => jarr (l.map jnat)) (St4sd.IniDir.discover d.pkg))]
   | "agree" =>
     return jobj [("bad", jarr ((dumpTable.filter fun e => !agrees parseTable knownKeys e).map fun e => jchars e.key))]
   | _ => throw s!"unknown op {op}"
